@@ -20,7 +20,7 @@ MONITORS = {
     'c01': Mon.C01Graph, 'end': Mon.EndState,
     'c03': Mon2.C03Progress, 'c04': Mon2.C04Runahead, 'c05': Mon2.C05Queues,
     'c11': Mon2.C11Retention, 'c31': Mon2.C31Sequential,
-    'rsnap': Mon2.RestartSnap,
+    'rsnap': Mon2.RestartSnap, 'c06': Mon2.C06Hold,
 }
 
 
@@ -165,6 +165,11 @@ def run_case(ctx, tag: str, case: dict, phase_list: List[dict],
             ph['index'] = idx
             if idx > 0:
                 ph.setdefault('restart', True)
+                carry = {}
+                for name, summ in (results[-1].get('monitors') or {}).items():
+                    if isinstance(summ, dict) and '_state' in summ:
+                        carry[name] = summ['_state']
+                ph['carry'] = carry
             res = phases.run_phase(case, ph, home, fac,
                                    timeout=ph.get('timeout', 90))
             results.append(res)
